@@ -63,13 +63,12 @@ def signature(ctx, F, cfg):
     for path in STRING_ENUMS:
         fwd = F.trait_impl_fn("<&str as core::convert::From<%s>>" % path, "from")
         bwd = F.trait_impl_fn("<%s as core::convert::TryFrom<&str>>" % path, "try_from")
+        from . import ftable as FT
         try:
             if fwd and bwd:
-                _, fr = T.variant_table(fwd, F)
-                _, br = T.conversion_table(bwd, F)
-                tables[path] = ([(r["variant"], T.result_value(r["res"], F)) for r in fr],
-                                [(tuple(sorted(map(str, r["vals"]))), r["catchall"], r["kind"], T.result_value(r["res"], F)) for r in br])
-        except T.Unreadable:
+                enc, dec, _f, _b = FT.string_tables(F, path)
+                tables[path] = (sorted(enc.items()), sorted((repr(k), v) for k, v in dec.items()))
+        except FT.Unreadable:
             tables[path] = "unreadable"
     consts = {p: c.get("val") for p, c in F.consts.items() if c.get("pv") == "user" and not p.endswith("::_")}
     return sig, tables, consts
